@@ -62,6 +62,11 @@ def _random_records(ctx, count):
         n = int(rng.randint(1, 300))
         T = int(rng.choice([5, 50, 1000]))
         times = sorted(int(x) for x in rng.randint(0, T + 1, size=n))
+        if rid % 3 == 0:
+            # spike times sorted batch-wise only (KiloSort2): not monotonic within a cluster
+            cut = sorted(int(x) for x in rng.randint(0, n + 1, size=int(rng.randint(1, 4))))
+            parts = [times[a:b] for a, b in zip([0] + cut, cut + [n])]
+            times = [t for j in rng.permutation(len(parts)) for t in parts[int(j)]]
         ids = [0, 1, 4, 9, 23][:int(rng.randint(1, 6))]
         clu = [ids[int(x)] for x in rng.randint(0, len(ids), size=n)]
         nb = int(rng.randint(2, 12))
@@ -70,6 +75,8 @@ def _random_records(ctx, count):
         nkept = int(rng.randint(1, 8))
         nreq = int(rng.choice([NONE, 0, 1, 2, 5, 50, 1000]))
         req = as_list(rng.permutation(ids + [77])[:int(rng.randint(0, len(ids) + 2))])
+        if rid % 4 == 0 and req:
+            req = req + [req[int(rng.randint(len(req)))]]          # a cluster named twice
         use_chunks = bool(rng.randint(0, 2))
         subset = [NONE] if rng.rand() < 0.5 else sorted(
             set(int(x) for x in rng.randint(0, n, size=int(rng.randint(0, n + 1)))))
